@@ -159,6 +159,9 @@ func (h *hctx) checkReply(in hrIn, before *server.VerifC06Item, r lastRes) (want
 	if r.rxt < in.rxt || (before == nil && r.rxt != in.rxt) || (before != nil && r.rxt-in.rxt > int64(before.Len)) {
 		h.fail("C06:rxt-bump-range", "returned rxt is not the packet's receive time plus at most one bump per kept entry", det())
 	}
+	if b := r.rxt - in.rxt; b > 0 {
+		h.c.Count(fmt.Sprintf("rx:uniqueness-bumps=%d", b))
+	}
 	o = -1
 	if before != nil {
 		for i, p := range before.Pairs {
@@ -284,6 +287,19 @@ func (h *hctx) checkUTX(id uint64, rxt, txt1 int64, before, after *server.VerifC
 		}
 	}
 	lg := h.logOf(id)
+	// the caller reports the value that is already on record (no kernel timestamp could be
+	// read): the exchange must be dropped, whatever the relation of that value to rxt
+	if x != -1 && before.Pairs[x].Tx == t64(txt1) {
+		still := false
+		if after != nil {
+			for _, p := range after.Pairs {
+				still = still || p.Rx == rx64
+			}
+		}
+		if still {
+			h.fail("C06:lost-tx-not-dropped", "the reported transmit time is the one already on record (no updated timestamp available) but the exchange stayed on record", det())
+		}
+	}
 	switch {
 	case before == nil:
 		h.c.Count("utx:unknown-client")
